@@ -161,7 +161,8 @@ pub fn random_char(rng: &mut StdRng) -> char {
             return if rng.gen_bool(0.4) { char::from_u32(rng.gen_range(0u32 ..= 0x1f)).unwrap() } else if rng.gen_bool(0.2) { ['\u{7f}', '\u{85}', '\u{9f}'][rng.gen_range(0 .. 3)] } else { rng.gen_range(b'a' ..= b'z') as char }
         }
         "nonascii" => {
-            return if rng.gen_bool(0.6) { ['é', 'ß', 'Ж', '日', '本', '😀', '\u{a0}', '\u{ff}', '\u{100}', '\u{fffd}', '\u{2028}', '\u{10ffff}'][rng.gen_range(0 .. 12)] } else { rng.gen_range(b'a' ..= b'z') as char }
+            // (ª µ º ² ¼: letters / numbers for Unicode, not name characters for XML)
+            return if rng.gen_bool(0.6) { ['é', 'ß', 'Ж', '日', '本', '😀', '\u{a0}', '\u{ff}', '\u{100}', '\u{fffd}', '\u{2028}', '\u{10ffff}', 'ª', 'µ', 'º', '²', '¼', '\u{b7}'][rng.gen_range(0 .. 18)] } else { rng.gen_range(b'a' ..= b'z') as char }
         }
         _ => {}
     }
@@ -182,6 +183,15 @@ pub fn random_string_where(rng: &mut StdRng, min: usize, max: usize, ok: impl Fn
         2 ..= 5 => rng.gen_range(min ..= max.min(min + 12)),
         _ => rng.gen_range(min ..= max),
     } };
+    // "near-names": a letter, then characters that Unicode calls letters / numbers and XML does not accept in names
+    let nonascii = STRCLASS.with(|s| s.borrow().as_str() == "nonascii");
+    if nonascii && min <= 3 && max >= 3 && rng.gen_bool(0.2) {
+        let bad = ['ª', 'µ', 'º', '²', '¼'];
+        let cand: String = [rng.gen_range(b'a' ..= b'z') as char, bad[rng.gen_range(0 .. bad.len())], rng.gen_range(b'a' ..= b'z') as char].iter().collect();
+        if cand.chars().all(&ok) {
+            return cand;
+        }
+    }
     let mut s = String::new();
     let mut tries = 0;
     while s.chars().count() < n {
